@@ -642,7 +642,8 @@ func (st *Runtime) executeInclude(node *IncludeNode) (returnValue reflect.Value)
 		node.errorf("evaluating name of template to include: name is not a valid value")
 	}
 	if name.Type().Implements(stringerType) {
-		templatePath = name.String()
+		// (reflect.Value.String() of a non-string is a placeholder, not the value's String() method)
+		templatePath = name.Interface().(fmt.Stringer).String()
 	} else if name.Kind() == reflect.String {
 		templatePath = name.String()
 	} else {
